@@ -44,6 +44,8 @@ class SimPipe:
         self._partial = bytearray()  # writer-side frame reassembly
         self.stream = bytearray()  # everything that went over the wire (before the cut)
         self.observe_frames = True
+        self._cut_fired = False
+        self.on_cut = None
 
     # ---- writer side
     def _append(self, data: bytes):
@@ -53,6 +55,11 @@ class SimPipe:
         self.buf += data
         self.stream += data
         self.written += len(data)
+        if self.cut_at is not None and self.written >= self.cut_at and not self._cut_fired:
+            self._cut_fired = True
+            self.s.observe("cut", side=self.dst, op="", chan=0, tok=self.written, res="", thread="", flag=False)
+            if self.on_cut is not None:
+                self.on_cut()
 
     def note_frames(self, data: bytes):
         """reassemble frames from what was written, log fout for each complete one"""
@@ -74,7 +81,9 @@ class SimPipe:
 
     def cut_here(self):
         self.cut_at = self.written
-        self.s.observe("cut", side=self.dst, op="", chan=0, tok=self.written, res="", thread="", flag=False)
+        if not self._cut_fired:
+            self._cut_fired = True
+            self.s.observe("cut", side=self.dst, op="", chan=0, tok=self.written, res="", thread="", flag=False)
 
     def note_consumed(self, n):
         self.consumed += n
